@@ -32,13 +32,13 @@ def Reach (R A : Crit) (s0 : St) (y : Sys) : Prop :=
   | .early, .inCrit j t => t = s0 ∧ y.st = A.mid s0 j ∧ EarlyOK A s0
   | .early, .finished => y.st = A.full s0 ∧ EarlyOK A s0
 
-theorem reach_init (R A : Crit) (s0 : St) : Reach R A s0 { st := s0, r := .start, a := .start } := by
-  simp [Reach]
+theorem reach_init (R A : Crit) (s0 : St) : Reach R A s0 (Sys.init s0) := by
+  simp [Reach, Sys.init]
 
-theorem reach_pickR (R A : Crit) (f : Facts R A) (s0 : St) (y : Sys) (h : Reach R A s0 y) :
-    Reach R A s0 (pickR R y) := by
-  obtain ⟨st, r, a⟩ := y
-  cases r <;> cases a <;> simp only [Reach] at h <;> simp only [pickR, aHolds]
+theorem reach_stepR (R A : Crit) (f : Facts R A) (s0 : St) (y : Sys) (h : Reach R A s0 y) :
+    Reach R A s0 (stepR R y) := by
+  obtain ⟨st, r, a, rb, ab⟩ := y
+  cases r <;> cases a <;> simp only [Reach] at h <;> simp only [stepR, aHolds]
   -- r = start: the unlocked read of the flag
   case start.start => subst h; split <;> simp_all [Reach, EarlyOK]
   case start.waiting => subst h; split <;> simp_all [Reach, EarlyOK]
@@ -66,10 +66,10 @@ theorem reach_pickR (R A : Crit) (f : Facts R A) (s0 : St) (y : Sys) (h : Reach 
   case inCrit.finished j t => obtain ⟨rfl, rfl⟩ := h; split <;> simp [Reach]
   all_goals simpa [Reach] using h
 
-theorem reach_pickA (R A : Crit) (s0 : St) (y : Sys) (h : Reach R A s0 y) :
-    Reach R A s0 (pickA A y) := by
-  obtain ⟨st, r, a⟩ := y
-  cases r <;> cases a <;> simp only [Reach] at h <;> simp only [pickA, rHolds]
+theorem reach_stepA (R A : Crit) (s0 : St) (y : Sys) (h : Reach R A s0 y) :
+    Reach R A s0 (stepA A y) := by
+  obtain ⟨st, r, a, rb, ab⟩ := y
+  cases r <;> cases a <;> simp only [Reach] at h <;> simp only [stepA, rHolds]
   case start.start => simpa [Reach] using h
   case start.waiting => subst h; simp only [Bool.false_eq_true, ↓reduceIte]; split <;> simp [Reach]
   case start.inCrit j t => obtain ⟨rfl, rfl⟩ := h; split <;> simp [Reach]
@@ -87,6 +87,41 @@ theorem reach_pickA (R A : Crit) (s0 : St) (y : Sys) (h : Reach R A s0 y) :
   case finished.inCrit j t => obtain ⟨rfl, rfl⟩ := h; split <;> simp [Reach]
   all_goals simpa [Reach] using h
 
+/-- `Reach` does not look at the blocked flags -/
+theorem reach_flags (R A : Crit) (s0 : St) (y y' : Sys) (h : Reach R A s0 y)
+    (h1 : y'.st = y.st) (h2 : y'.r = y.r) (h3 : y'.a = y.a) : Reach R A s0 y' := by
+  obtain ⟨st, r, a, rb, ab⟩ := y
+  obtain ⟨st', r', a', rb', ab'⟩ := y'
+  simp only at h1 h2 h3
+  subst h1 h2 h3
+  exact h
+
+theorem reach_pickR (R A : Crit) (f : Facts R A) (s0 : St) (y : Sys) (h : Reach R A s0 y) :
+    Reach R A s0 (pickR R A y) := by
+  unfold pickR
+  split
+  · exact h
+  · split
+    · exact reach_flags R A s0 y _ h rfl rfl rfl
+    · have h1 := reach_stepR R A f s0 y h
+      simp only
+      split
+      · exact reach_flags R A s0 _ _ (reach_stepA R A s0 _ h1) rfl rfl rfl
+      · exact h1
+
+theorem reach_pickA (R A : Crit) (f : Facts R A) (s0 : St) (y : Sys) (h : Reach R A s0 y) :
+    Reach R A s0 (pickA R A y) := by
+  unfold pickA
+  split
+  · exact h
+  · split
+    · exact reach_flags R A s0 y _ h rfl rfl rfl
+    · have h1 := reach_stepA R A s0 y h
+      simp only
+      split
+      · exact reach_flags R A s0 _ _ (reach_stepR R A f s0 _ h1) rfl rfl rfl
+      · exact h1
+
 theorem reach_run (R A : Crit) (f : Facts R A) (s0 : St) (sched : List Bool) (y : Sys)
     (h : Reach R A s0 y) : Reach R A s0 (runSched R A y sched) := by
   induction sched generalizing y with
@@ -94,14 +129,14 @@ theorem reach_run (R A : Crit) (f : Facts R A) (s0 : St) (sched : List Bool) (y 
   | cons b bs ih =>
     simp only [runSched]
     cases b
-    · exact ih _ (by simpa using reach_pickA R A s0 y h)
+    · exact ih _ (by simpa using reach_pickA R A f s0 y h)
     · exact ih _ (by simpa using reach_pickR R A f s0 y h)
 
 /-- both threads done ⇒ the shared state is one of the two serial results -/
 theorem reach_done (R A : Crit) (f : Facts R A) (s0 : St) (y : Sys) (h : Reach R A s0 y)
     (hr : rDone y.r = true) (ha : aDone y.a = true) :
     y.st = A.full (R.full s0) ∨ y.st = R.full (A.full s0) := by
-  obtain ⟨st, r, a⟩ := y
+  obtain ⟨st, r, a, rb, ab⟩ := y
   cases r <;> cases a <;> simp [rDone, aDone] at hr ha <;> simp only [Reach] at h
   · obtain ⟨rfl, he⟩ := h
     rcases he with he | he
